@@ -193,7 +193,11 @@ static Crystal_Struct *gen_many(unsigned seed, unsigned i) {
 static int run_history(const char *hist_path, const char *files_dir);
 
 #include <errno.h>
-static void xv_poison_errno(void) { static unsigned k; static const int v[4] = {ERANGE, EDOM, ENOMEM, 0}; errno = v[k++ & 3]; }   /* see harness/cdrv.c */
+#include <fenv.h>
+static void xv_poison_errno(void) { static unsigned k; static const int v[4] = {ERANGE, EDOM, ENOMEM, 0};
+  /* likewise the floating-point exception flags an application may have raised (seeded change C05-11: fetestexcept without feclearexcept) */
+  feclearexcept(FE_ALL_EXCEPT); if ((k >> 2) & 1) feraiseexcept(FE_DIVBYZERO | FE_INVALID | FE_OVERFLOW);
+  errno = v[k++ & 3]; }   /* see harness/cdrv.c */
 int main(int argc, char **argv) {
   if (argc < 3) return 2;
   if (argc > 3 && !strcmp(argv[3], "dump")) { dump_builtin(); return 0; }
